@@ -125,9 +125,10 @@ def make_funcs(case, tree, index_of):
     if "nodename" in spec:
         funcs["nodenamefunc"] = lambda n: spec["nodename"] % index_of[id(n)] if "%" in spec["nodename"] else "%s%d" % (spec["nodename"], index_of[id(n)])
     if "nodeattr" in spec:
-        funcs["nodeattrfunc"] = lambda n: None if index_of[id(n)] % 3 == 2 else spec["nodeattr"] + str(index_of[id(n)])
+        # results appear verbatim - also results that are falsy without being None ('' from ",".join([]), 0, False): only None means "no attributes"
+        funcs["nodeattrfunc"] = lambda n: None if index_of[id(n)] % 3 == 2 else (("", 0, False)[index_of[id(n)] % 3] if spec.get("falsy_attrs") and index_of[id(n)] % 2 else spec["nodeattr"] + str(index_of[id(n)]))
     if "edgeattr" in spec:
-        funcs["edgeattrfunc"] = lambda p, c: None if index_of[id(c)] % 2 else "%s%d_%d" % (spec["edgeattr"], index_of[id(p)], index_of[id(c)])
+        funcs["edgeattrfunc"] = lambda p, c: None if index_of[id(c)] % 2 else (("", 0, False)[index_of[id(c)] % 3] if spec.get("falsy_attrs") and index_of[id(c)] % 4 == 0 else "%s%d_%d" % (spec["edgeattr"], index_of[id(p)], index_of[id(c)]))
     if "edgetype" in spec:
         funcs["edgetypefunc"] = lambda p, c: spec["edgetype"][index_of[id(c)] % len(spec["edgetype"])]
     return funcs
@@ -166,7 +167,14 @@ def readings(case, maxlevel, stop_ids, hide_ids):
 
 
 def fractional(maxlevel):
-    return isinstance(maxlevel, float) and maxlevel != int(maxlevel)
+    return isinstance(maxlevel, float) and maxlevel not in (float("inf"), float("-inf")) and maxlevel == maxlevel and maxlevel != int(maxlevel)
+
+
+def decode_level(case):
+    """{'inf': 1} in a case description stands for float('inf') ('no limit' spelled as a number; JSON has no infinity)."""
+    if isinstance(case, dict) and isinstance(case.get("maxlevel"), dict):
+        return dict(case, maxlevel=float("inf"))
+    return case
 
 
 def expected_structure(tree, start, stop_ids, hide_ids, maxlevel):
@@ -584,6 +592,7 @@ def check_gc(case, acc, exporter_cls=None, node_re=None, edge_re=None, closing=T
 
 
 def check_case(case, acc):
+    case = decode_level(case)
     if case.get("kind") == "gc":
         return check_gc(case, acc)
     if case.get("kind") == "tall":
@@ -713,7 +722,7 @@ def random_cases(draw, exporters=("DotExporter", "UniqueDotExporter", "RenderTre
         "start": draw(st.one_of(st.just(0), st.integers(0, size - 1))),
         "stop": draw(strategies.subsets_of(size, max_size=3)),
         "hide": draw(strategies.subsets_of(size, max_size=4)),
-        "maxlevel": draw(st.one_of(st.none(), st.integers(0, 6))),
+        "maxlevel": draw(st.one_of(st.none(), st.integers(0, 6), st.integers(0, 6), st.sampled_from([{"inf": 1}, 2 ** 70, True]))),
         "truth": draw(st.integers(0, 3)),
         "positional": draw(st.integers(0, 3)) == 0,
         "exporters": kinds,
@@ -731,6 +740,7 @@ def random_cases(draw, exporters=("DotExporter", "UniqueDotExporter", "RenderTre
             funcs["edgeattr"] = draw(TOKEN)
         if draw(st.booleans()):
             funcs["edgetype"] = draw(st.lists(st.sampled_from(["->", "--", "=>", "-> /*x*/"]), min_size=1, max_size=2))
+        funcs["falsy_attrs"] = draw(st.booleans())
         case["funcs"] = funcs
     if draw(st.booleans()):
         case["indent"] = draw(st.integers(0, 8))
